@@ -223,6 +223,17 @@ def strata(tier):
             for via in ("dsl", "spec"):
                 yield {"rule": {"path": PC.mkpath([{"p": "map"}]), "cond": cond, "cast": None}, "doc": idoc, "via": via,
                        "pos": "list-item" if cond["fn"] == "in_" else "positional", "pcls": "concrete"}
+    # a path and modifier paths derived from it in ONE condition / one rule (the rule's own path among them)
+    Pi = PC.mkpath([{"p": "prim", "v": "items"}])
+    sdoc = {"items": [1, 2, 3], "n": 3, "x": 2, "k": [3]}
+    for cond in (PC.L("value", "in_", [{"$path": Pi}, {"$path": dict(Pi, datum="length")}]), PC.L("value", "in_range", {"$path": dict(Pi, datum="length")}, 9),
+                 {"c": "and", "a": PC.L("value", "not_equal_to", {"$path": Pi}), "b": PC.L("value", "less_than_or_equal_to", {"$path": dict(Pi, datum="length")})},
+                 {"c": "or", "a": PC.L("value", "equal_to", {"$path": dict(PC.mkpath(Pi["parts"] + [{"p": "list"}]), multi="first")}),
+                  "b": PC.L("value", "in_", {"$path": PC.mkpath(Pi["parts"] + [{"p": "list"}])})}):
+        for rpath in ([{"p": "prim", "v": "n"}], [{"p": "prim", "v": "items"}], [{"p": "map"}], [{"p": "prim", "v": "items"}, {"p": "list"}]):
+            for mode in ("shared", None, "looked-at", "deepcopy"):
+                yield {"rule": {"path": PC.mkpath(rpath), "cond": cond, "cast": None}, "doc": sdoc, "via": "dsl", "pos": "list-item", "pcls": "modifiers",
+                       "_objmode": mode}
     # escaped literal mappings
     for j, lit in enumerate([{"kind": "ref", "path": ["a", "b"]}, {"a": 1, "Path.length": 2, "z": 0}, {"path": ["a"], "kind": "ref"},
                              {"k": 0, "path": ["a"], "PATH.first": 3}, {"kind": "r%d" % 1, "path": 3}, {"x": [1], "path": {"path": 1}},
